@@ -23,7 +23,7 @@ def c18(ctx):
     rep.rule("C18.R4", "no misleading suggestion: PoeticNumberLiteralTemplate::from_value is only reached under bool::then of a guard that "
              "requires a finite, non-negative value; the `says` suggestion is only made for strings without a line break")
     n = cr.census_for(ctx, "C18.R3", "C18", "linting", cr.roots_lint, only=in_linter)
-    rep.floor("C18.R3", n, 12, "census sites (both profiles)")
+    rep.floor("C18.R3", n, 8, "census sites (both profiles)")
     overrides_rule(ctx, "C18.R1")
     inspected_rule(ctx, "C18.R2")
     spelling_guard_rule(ctx, "C18.R4")
@@ -229,7 +229,7 @@ def spelling_guard_rule(ctx, rule):
                     else:
                         why = "the guard %s does not require a finite, non-negative value (%s)" % (guard_fn.path, sorted(x for x in names if x))
         rep.ob(rule, "numeric-suggestion-guarded::%s" % common.top_fn(F, fn).path, ok, why, fn.loc(t["line"]), how="only for finite, non-negative values")
-    rep.floor(rule, n, 2, "uses of from_value")
+    rep.floor(rule, n, 1, "uses of from_value")
     ss = [f for p, f in F.fns.items() if p.startswith(MOD + "string_suggestion_payload") and f.kind != "closure"]
     if not ss:
         rep.fail(rule, "anchor::string_suggestion_payload", "string_suggestion_payload not found")
